@@ -1,6 +1,7 @@
 package sctp
 
 import (
+	"strings"
 	"github.com/pion/sctp/internal/vsched"
 	"fmt"
 	"sort"
@@ -594,7 +595,7 @@ func propC07(j *Job) {
 		j.Explore(fmt.Sprintf("FR/%s", mode.Name), fwdAcrossResetScenario(withBase(mode.A, 228, 0xFFFFFFF9, 4000), withBase(mode.B, 228, 50, 4000)), Budget{}, nil)
 		// several readers blocked on the stream whose queued messages a skip report releases
 		j.Explore(fmt.Sprintf("RS/%s/readers2", mode.Name), readersGapScenario(withBase(mode.A, 228, 0xFFFFFFFE, 4000), withBase(mode.B, 228, 0xFFFFFFF0, 4000), 2, true), Budget{D: map[bool]int{false: 0, true: 1}[j.Thorough()]}, nil)
-		for _, v := range []string{"crossing", "lost-sacks"} {
+		for _, v := range []string{"crossing", "lost-sacks", "lost-sacks+resp", "late-sack"} {
 			j.Explore(fmt.Sprintf("FG/%s/%s", mode.Name, v), fwdAfterResetScenario(withBase(mode.A, 228, 0xFFFFFFF9, 4000), withBase(mode.B, 228, 50, 4000), v), Budget{}, nil)
 		}
 	}
@@ -1072,14 +1073,41 @@ func fwdAfterResetScenario(a, b epCfg, variant string) *Scenario {
 			}
 			A, B := m.As[0], m.As[1]
 			loseData := 0
-			loseSacks := variant == "lost-sacks"
+			loseSacks := variant != "crossing"
+			loseResp := 0
+			if variant == "lost-sacks+resp" {
+				loseResp = 1 // the first answer to A's reset request is lost: B's own request arrives first
+			}
+			firstSack := variant == "late-sack" // B's first SACK is not lost but held up for a second
+			m.W.delayFn = func(p *wpkt) time.Duration {
+				if !firstSack || p.dec == nil || p.from != 1 || len(p.dec.Chunks) != 1 || p.dec.Chunks[0].Typ != wSACK {
+					return 0
+				}
+				firstSack = false
+				p.noFault = true
+				return time.Second
+			}
 			m.W.killFn = func(p *wpkt) bool {
+				if p.dec != nil && p.from == 1 && loseResp > 0 {
+					for _, c := range p.dec.Chunks {
+						if c.Typ == wRECONFIG && strings.Contains(c.Summary(), "Resp") && strings.Contains(c.Summary(), "result=1") {
+							loseResp--
+							return true
+						}
+					}
+				}
 				if p.dec != nil && p.from == 1 && loseSacks {
+					if p.tag == "delayed" {
+						return false
+					}
 					only := len(p.dec.Chunks) > 0
 					for _, c := range p.dec.Chunks {
 						if c.Typ != wSACK {
 							only = false
 						}
+					}
+					if only && firstSack {
+						return false // this one is held up by delayFn instead
 					}
 					return only
 				}
@@ -1150,6 +1178,14 @@ func fwdAfterResetScenario(a, b epCfg, variant string) *Scenario {
 			loseData = 1
 			_, _ = s2.WriteSCTP(payload(2, 0, 32), PayloadTypeWebRTCBinary)
 			if loseSacks {
+				if variant == "late-sack" {
+					// after the held-up SACK has arrived (cumulative point one further, still short of
+					// the reset's last TSN) another message of stream 2 is lost and abandoned: the
+					// next skip report reaches beyond what B has already passed
+					m.Sleep(1500 * time.Millisecond)
+					loseData = 1
+					_, _ = s2.WriteSCTP(payload(2, 1, 33), PayloadTypeWebRTCBinary)
+				}
 				m.Sleep(3 * time.Second) // the T3 expiry builds the skip report meanwhile
 				loseSacks = false
 			}
